@@ -134,6 +134,14 @@ theorem flat_low (tid : Nat) (op : ApiOp) (htid : tid < nThreads) (hf : flatOp o
     refine ⟨fun st => ?_, fun s1 => ?_⟩
     · simp only [pre, boxAssign]; lowauto
     · simp only [post, boxAssign]; lowauto
+  case gNew d tag inl val cap =>
+    refine ⟨fun st => ?_, fun s1 => ?_⟩
+    · simp only [pre, boxAssign]; lowauto
+    · simp only [post, boxAssign]; lowauto
+  case gEdit d skip nv =>
+    refine ⟨fun st => ?_, fun s1 => ?_⟩
+    · simp only [pre, boxAssign]; lowauto
+    · simp only [post, boxAssign]; lowauto
   case vClear d =>
     refine ⟨fun st => ?_, fun s1 => ?_⟩
     · simp only [pre, boxAssign]; lowauto
